@@ -621,7 +621,12 @@ def _analyse_exec(run: Any, ea: ExecAnalysis, retire_probe: bool, aborted: bool,
                 check_prio(nid, seq)
                 dispatched.add(nid)
             elif nid not in dispatched:
-                # async-thread node whose task creation could not be attributed: submission is the dispatch
+                # async-thread node whose task creation could not be attributed (or that is handed to the pool without a task):
+                # the submission is the dispatch decision
+                episode_kinds = None
+                if failure_observed_at is not None:
+                    V.append(viol("dispatch_after_failure", f"{nid} submitted after the scheduler observed a failure", op=opkey, tok=tok, seq=seq))
+                check_prio(nid, seq)
                 dispatched.add(nid)
         elif k == "dispatch_async":
             nid = e[2]
